@@ -94,6 +94,9 @@ pub fn check_frame(f: &RFrame, plan_seed: u64, ctx: Option<&Ctx>) -> Vec<Fail> {
 }
 
 fn plans_for_frame(bytes: &[u8], seed: u64) -> Vec<Plan> {
+    if let Some(p) = crate::common::http::plan_override() {
+        return p;
+    }
     let n = bytes.len();
     let mut plans = vec![Plan::Whole, Plan::ByteWise];
     if n <= 140 {
